@@ -721,12 +721,15 @@ func (obj *SparseInt32MatrixJointIterator) Index() (int, int) {
   return obj.i, obj.j
 }
 func (obj *SparseInt32MatrixJointIterator) Ok() bool {
-  return !(obj.s1.ptr == nil || obj.s1.GetInt32() == int32(0)) ||
-         !(obj.s2 == nil || obj.s2.GetInt32() == int32(0))
+  return obj.i != -1
 }
 func (obj *SparseInt32MatrixJointIterator) Next() {
   ok1 := obj.it1.Ok()
   ok2 := obj.it2.Ok()
+  if !ok1 && !ok2 {
+    // all iterators are exhausted
+    obj.i, obj.j = -1, -1
+  }
   obj.s1.ptr = nil
   obj.s2 = nil
   if ok1 {
@@ -801,14 +804,16 @@ func (obj *SparseInt32MatrixJoint3Iterator) Index() (int, int) {
   return obj.i, obj.j
 }
 func (obj *SparseInt32MatrixJoint3Iterator) Ok() bool {
-  return !(obj.s1.ptr == nil || obj.s1.GetInt32() == 0.0) ||
-         !(obj.s2 == nil || obj.s2.GetInt32() == 0.0) ||
-         !(obj.s3 == nil || obj.s3.GetInt32() == 0.0)
+  return obj.i != -1
 }
 func (obj *SparseInt32MatrixJoint3Iterator) Next() {
   ok1 := obj.it1.Ok()
   ok2 := obj.it2.Ok()
   ok3 := obj.it3.Ok()
+  if !ok1 && !ok2 && !ok3 {
+    // all iterators are exhausted
+    obj.i, obj.j = -1, -1
+  }
   obj.s1.ptr = nil
   obj.s2 = nil
   obj.s3 = nil
